@@ -136,6 +136,11 @@ func matchChunk(chunk, s string) (rest string, ok bool) {
 }
 
 func (p Pattern) MarshalJSON() ([]byte, error) {
+	if len(p.comps) == 0 {
+		// UnmarshalJSON requires at least one component: write the empty pattern as the empty literal,
+		// which is also what its Cedar text form `""` parses to
+		return []byte(`[{"Literal":""}]`), nil
+	}
 	var buf bytes.Buffer
 	buf.WriteRune('[')
 	for i, comp := range p.comps {
